@@ -178,6 +178,7 @@ def repeated_runs(_):
   sys.argv = sys.argv[:1]
   import openhtf as htf
   from openhtf.core import diagnoses_lib
+  from openhtf.util import validators
   from vf import build
   bad = []
   seen_state = []
@@ -188,17 +189,22 @@ def repeated_runs(_):
   runs = [0]
 
   @htf.diagnose(dg)
-  @htf.measures(htf.Measurement('m').in_range(0, 100), htf.Measurement('d').with_dimensions('x'))
+  def p0(test):
+    pass
+
+  @htf.measures(htf.Measurement('m').in_range(0, 100), htf.Measurement('d').with_dimensions('x'),
+                htf.Measurement('c').validate_on({build.R.a: validators.in_range(0, 5)}))
   def p(test):
     seen_state.append((dict(test.state), test.diagnoses_store.has_diagnosis_result(build.R.a),
                        test.get_measurement('m').outcome.name if test.get_measurement('m') else None))
     test.state['run'] = runs[0]
+    test.measurements.c = 50      # violates the conditional validator, which applies in run 1 only
     if runs[0] != 2:
       test.measurements.m = runs[0]
       test.measurements.d[runs[0]] = runs[0]
       test.attach('att', b'run%d' % runs[0])
-  fp0 = fingerprint(p)
-  t = htf.Test(p)
+  fp0 = (fingerprint(p), fingerprint(p0))
+  t = htf.Test(p0, p)
   fpt0 = fingerprint(t.descriptor.phase_sequence)
   recs = []
   t.add_output_callbacks(recs.append)
@@ -207,22 +213,26 @@ def repeated_runs(_):
     for r in (1, 2, 3):
       runs[0] = r
       t.execute()
-      if fingerprint(p) != fp0 or fingerprint(t.descriptor.phase_sequence) != fpt0:
-        bad.append('executing a test mutated the phases / node tree it was declared with')
+      if (fingerprint(p), fingerprint(p0)) != fp0 or fingerprint(t.descriptor.phase_sequence) != fpt0:
+        bad.append('executing a test mutated the phases / measurements / validators / node tree it was declared with')
   finally:
     build.CONF.load(allow_unset_measurements=False, _override=True)
   for r, (state, had_diag, m_oc) in zip((1, 2, 3), seen_state):
     if state:
       bad.append('a run started with a non-empty state dict')
-    if had_diag:
+    if had_diag != (r == 1):
       bad.append('a run started with a diagnosis from an earlier run in its store')
     if m_oc != 'UNSET':
       bad.append('a run started with a measurement that was not UNSET')
-  m2 = recs[1].phases[0].measurements
-  if m2['m'].outcome.name != 'UNSET' or m2['d'].measured_value.is_value_set or recs[1].phases[0].attachments:
+  ph = [[x for x in r.phases if x.name == 'p'][0] for r in recs]
+  if [x.measurements['c'].outcome.name for x in ph] != ['FAIL', 'PASS', 'PASS']:
+    bad.append('a conditional validator of an earlier run decided the measurement of a later run (%s)'
+               % [x.measurements['c'].outcome.name for x in ph])
+  m2 = ph[1].measurements
+  if m2['m'].outcome.name != 'UNSET' or m2['d'].measured_value.is_value_set or ph[1].attachments:
     bad.append('the record of a run contains values of an earlier run')
-  if recs[2].phases[0].measurements['m'].measured_value.value != 3 or \
-     [tuple(x) for x in recs[2].phases[0].measurements['d'].measured_value.value] != [(3, 3)]:
+  if ph[2].measurements['m'].measured_value.value != 3 or \
+     [tuple(x) for x in ph[2].measurements['d'].measured_value.value] != [(3, 3)]:
     bad.append('the record of a run contains values of an earlier run')
   if [len(r.diagnoses) for r in recs] != [1, 0, 0]:
     bad.append('diagnoses of one run appear in another run\'s record')
